@@ -195,6 +195,18 @@ fn exec(op: &Op) -> String {
             let Some(entry) = d.get_distfile(ename).or_else(|| d.get_patchfile(ename)) else {
                 return "noentry".into();
             };
+            // optional 7th argument: digits naming the digests whose recorded hash is replaced by
+            // the EMPTY string through the public fields (a value the text format cannot express)
+            let mut entry = entry.clone();
+            if let Some(blank) = op.args.get(6) {
+                for c in entry.checksums.iter_mut() {
+                    let i = DIGESTS.iter().position(|d| *d == c.digest).unwrap();
+                    if blank.contains(&(b'0' + i as u8)) {
+                        c.hash.clear();
+                    }
+                }
+            }
+            let entry = &entry;
             let _ = std::fs::remove_dir_all("f");
             let full = Path::new("f").join(fname);
             if let Some(parent) = full.parent() {
